@@ -5,7 +5,7 @@ from . import text_bounded
 ID = "C17"
 LEVEL = "other"
 MODES = ["gregorian"]
-FUNCS = ["dumpers:TimePointDumper.strftime", "ghost:dump_fields_recompose", "ghost:strftime_year_is_civil_year", "data:TimePoint.seconds_since_unix_epoch",
+FUNCS = ["dumpers:TimePointDumper.strftime", "data:TimePoint.strftime", "ghost:dump_fields_recompose", "ghost:strftime_year_is_civil_year", "data:TimePoint.seconds_since_unix_epoch",
          "ghost:strftime_strptime_round_trip"]
 LEMMAS = CAL_LEMMAS
 CANARIES = ["canary.week52"]
